@@ -10,7 +10,7 @@ From Verif Require Import Lib.Base Model.C01_Attester Proofs.C01.
    i.e. over the whole history no (validator, epoch) is handed to the signer twice.  It is FALSE of
    the code: see C01_window_refuted below.  What is proved is the statement for every history in
    which no test-and-mark for an epoch e is executed after housekeeping deleted epoch e
-   ([window_ok]: housekeeping deletes e when a duty of epoch e+2 has attested successfully; the
+   ([window_ok]: housekeeping deletes e when a duty of epoch e+2 or later has attested successfully; the
    controller never schedules duties that far in the past).  The excluded class is exactly the
    known finding C01-stale-epoch-redelivery.
    [wf_runs]: the accounts provider's answer is a Go map, so it has no validator twice. *)
